@@ -170,6 +170,22 @@ ROUND8 = {
     "C20": " A pool never forgets the keyspace it was told.",
 }
 
+# clauses added by the ninth seed round
+ROUND9 = {
+    "C01": " Thorough tier: the optional date/time carriers convert into CqlTimestamp / CqlDate without truncating division.",
+    "C03": " Both documented partitioner class names are recognised.",
+    "C04": " Every ring token gets a precomputed entry (no dropping adapter between the ring and the map).",
+    "C05": " The node stages of pick() are tried with and without a token.",
+    "C06": " The consistency shown to the retry policy is the one the attempt was sent with; a failed connection pick advances the plan.",
+    "C09": " An explicitly set timestamp is never replaced by the generator's.",
+    "C10": " A target without a usable connection is skipped, never asked again in a loop.",
+    "C11": " A shard-aware connection's source port always comes from that shard's port iterator; an exhausted iterator is an error.",
+    "C12": " A tablet delivered again replaces the one held for its range.",
+    "C13": " The call has a value to return when no execution recorded an error (the optional last error is never unwrapped).",
+    "C16": " The ordered UDT deserializer fetches a field only when none is parked.",
+    "C17": " Whether a column type is frozen never decides acceptance.",
+}
+
 NOT_APPLICABLE = {
 }
 
@@ -188,7 +204,7 @@ def main():
                 "evidence_file": "/verif/evidence/%s.json" % pid,
                 "replay_cmd_template": "./check explain {path}",
                 "engine": "scyllalint",
-                "level_claimed": {"category": "other", "text": text + ROUND4.get(pid, "") + ROUND5.get(pid, "") + ROUND6.get(pid, "") + ROUND7.get(pid, "") + ROUND8.get(pid, ""), "design_ref": ref},
+                "level_claimed": {"category": "other", "text": text + ROUND4.get(pid, "") + ROUND5.get(pid, "") + ROUND6.get(pid, "") + ROUND7.get(pid, "") + ROUND8.get(pid, "") + ROUND9.get(pid, ""), "design_ref": ref},
                 "level_note": note,
                 "technique": tech,
             })
